@@ -11,6 +11,9 @@
 #include <yaclib/async/shared_contract.hpp>
 #include <yaclib/async/split.hpp>
 #include <yaclib/async/wait.hpp>
+#include <yaclib/coro/await.hpp>
+#include <yaclib/coro/future.hpp>
+#include <yaclib/coro/shared_future.hpp>
 
 #include <deque>
 #include <vector>
@@ -33,8 +36,9 @@ inline void Jitter(u32 n) {
 #endif
 }
 
-enum ProducerKind { kVal = 0, kErr = 1, kExc = 2, kDrop = 3 };
-const char* const kProducerName[] = {"set-value", "set-error", "set-exception", "drop-promise"};
+enum ProducerKind { kVal = 0, kErr = 1, kExc = 2, kDrop = 3, kCoroSplit = 4, kCoroConnect = 5, kCoroShared = 6 };
+const char* const kProducerName[] = {"set-value",          "set-error",          "set-exception",        "drop-promise",
+                                     "Split(coroutine)",   "Connect(coroutine)", "SharedFuture-coroutine"};
 
 struct World {
   int pk = 0;
@@ -140,10 +144,14 @@ void CheckObs(Ctx& ctx, const Obs& o, const World& w, bool must_fresh, const cha
 void SharedCase(Ctx& ctx, bool with_ready_touch) {
   ResetTags();
   World w;
-  w.pk = static_cast<int>(ctx.rng.Below(4));
+  // the last three kinds fulfil the shared state from a coroutine's final suspend (symmetric transfer path)
+  w.pk = static_cast<int>(ctx.rng.Below(7));
   w.code = static_cast<int>(ctx.rng.In(1, 1000000));
   switch (w.pk) {
     case kVal:
+    case kCoroSplit:
+    case kCoroConnect:
+    case kCoroShared:
       w.exp_state = 0;
       w.exp_code = w.code;
       break;
@@ -197,7 +205,35 @@ void SharedCase(Ctx& ctx, bool with_ready_touch) {
   int by_samples = 0;
   bool by_monotonic = true;
   {
-    auto [sf0, sp0] = yaclib::MakeSharedContract<Tracked, MyError>();
+    // coroutine producers: the body waits for a gate the producer thread opens, then completes the shared state
+    auto co_unique = [&w](yaclib::Future<void, MyError> gate) -> yaclib::Future<Tracked, MyError> {
+      co_await yaclib::Await(gate);
+      w.side = w.code;
+      w.set_call = Stamp();
+      co_return Tracked{w.code};
+    };
+    auto co_shared = [&w](yaclib::Future<void, MyError> gate) -> yaclib::SharedFuture<Tracked, MyError> {
+      co_await yaclib::Await(gate);
+      w.side = w.code;
+      w.set_call = Stamp();
+      co_return Tracked{w.code};
+    };
+    auto [gate_f, gate_p] = yaclib::MakeContract<void, MyError>();
+    SF sf0;
+    yaclib::SharedPromise<Tracked, MyError> sp0;
+    if (w.pk == kCoroSplit) {
+      sf0 = yaclib::Split(co_unique(std::move(gate_f)));
+    } else if (w.pk == kCoroConnect) {
+      auto [f, p] = yaclib::MakeSharedContract<Tracked, MyError>();
+      sf0 = std::move(f);
+      yaclib::Connect(co_unique(std::move(gate_f)), std::move(p));
+    } else if (w.pk == kCoroShared) {
+      sf0 = co_shared(std::move(gate_f));
+    } else {
+      auto [f, p] = yaclib::MakeSharedContract<Tracked, MyError>();
+      sf0 = std::move(f);
+      sp0 = std::move(p);
+    }
     SF root_copy = sf0;
     std::vector<SF> copies;
     for (int i = 0; i < nobs; ++i) {
@@ -213,8 +249,14 @@ void SharedCase(Ctx& ctx, bool with_ready_touch) {
       root_copy = {};  // observers own every reference: the last one to finish is provably last
     }
     std::vector<yaclib_std::thread> ts;
-    ts.emplace_back([&, sp = std::move(sp0)]() mutable {
+    ts.emplace_back([&, sp = std::move(sp0), gp = std::move(gate_p)]() mutable {
       Jitter(pj);
+      if (w.pk >= kCoroSplit) {
+        std::move(gp).Set();  // the coroutine resumes here and completes the shared state from its final suspend
+        w.set_ret = Stamp();
+        return;
+      }
+      { auto unused_gate = std::move(gp); }
       w.side = w.code;
       w.set_call = Stamp();
       switch (w.pk) {
